@@ -188,6 +188,66 @@ def misc(bits_max, kv_bits):
     return a.evals, a.viols, dict(a.stats)
 
 
+LONG = (31, 32, 33, 63, 64, 65, 127, 128, 129, 255, 256, 257, 258, 259, 260, 261, 262, 263, 264, 300, 511, 512, 513, 1000)
+
+
+def patterns(n, alphabet):
+    lo, hi = alphabet[0], alphabet[-1]
+    mid = alphabet[len(alphabet) // 2]
+    return [tuple([lo] * n), tuple([hi] * n), tuple((lo, hi)[i % 2] for i in range(n)), tuple(alphabet[i % len(alphabet)] for i in range(n)),
+            tuple([lo] * (n - 1) + [hi]), tuple([hi] + [mid] * (n - 1))]
+
+
+def long_inputs():
+    """boundary probes far beyond the exhaustive bound: every length of LONG x six fill patterns (bounded, not sampled)"""
+    a = Acc()
+    for n in LONG:
+        for ns in patterns(n, tuple(range(16))):
+            for term in (False, True):
+                for form in (tuple, list):
+                    a.evals += 1
+                    arg = form(ns) + form((16,) if term else ())
+                    try:
+                        enc = encode_nibbles(arg)
+                        dec = tuple(decode_nibbles(enc))
+                        key = compute_leaf_key(form(ns)) if term else compute_extension_key(form(ns))
+                    except Exception as e:  # noqa
+                        a.bad("hp_raised", f"encode/decode_nibbles raised {type(e).__name__} for a long path", length=n, terminator=term, form=form.__name__)
+                        continue
+                    if enc != mpt.hp(ns, term) or key != enc:
+                        a.bad("hp_encode_wrong", "encode_nibbles / compute_*_key differ from the Yellow Paper HP function for a long path", length=n,
+                              terminator=term, form=form.__name__)
+                    if dec != tuple(ns) + ((16,) if term else ()):
+                        a.bad("hp_roundtrip", "decode_nibbles(encode_nibbles(x)) != x for a long path (sequence or flag lost)", length=n, terminator=term)
+                    node = decode_node(_rlp.encode([enc, b"v" if term else b"\x11" * 32]))
+                    if get_node_type(node) != (NODE_TYPE_LEAF if term else NODE_TYPE_EXTENSION) or tuple(extract_key(node)) != tuple(ns):
+                        a.bad("hexary_node_classification", "a hexary node with a long path does not classify as written or yields another key path",
+                              length=n, terminator=term)
+        for bs in patterns(n, (0, 1)):
+            a.evals += 1
+            try:
+                enc = encode_from_bin_keypath(bytes(bs))
+                if enc != bt.pack_path(bs) or tuple(decode_to_bin_keypath(enc)) != bs:
+                    a.bad("keypath_roundtrip", "key-path packing does not round-trip a long bit string", length=n)
+                child = b"\x22" * 32
+                node = encode_kv_node(bytes(bs), child)
+                got = parse_node(node)
+                if node != bt.enc_kv(bs, child) or got[0] != KV_TYPE or tuple(got[1]) != bs or got[2] != child:
+                    a.bad("bin_node_roundtrip", "a kv node with a long key path does not parse back to its parts", length=n)
+            except Exception as e:  # noqa
+                a.bad("bin_node_raised", f"a well-formed kv node with a long key path raised {type(e).__name__}", length=n)
+        if n % 8 == 0 or n in (33, 129, 300):
+            for bs in patterns(n, tuple(range(256))):
+                a.evals += 1
+                b = bytes(bs)
+                try:
+                    if nibbles_to_bytes(bytes_to_nibbles(b)) != b or tuple(bytes_to_nibbles(b)) != mpt.nib(b) or decode_from_bin(encode_to_bin(b)) != b:
+                        a.bad("nibbles_roundtrip", "byte <-> nibble / bit conversions do not round-trip a long byte string", length=n)
+                except Exception as e:  # noqa
+                    a.bad("conversion_raised", f"byte conversion raised {type(e).__name__} for a long byte string", length=n)
+    return a.evals, a.viols, dict(a.stats)
+
+
 def run(tier, seed):
     rep = Report("C16", tier, seed, "exploration")
     thorough = tier == "thorough"
@@ -196,7 +256,8 @@ def run(tier, seed):
     rep.rule = (f"every nibble sequence of length <= {L} over all 16 nibbles and of length <= 8 over {{0,1,f}}, with and without terminator: "
                 "encode == Yellow-Paper HP, decode(encode(x)) == x, node built with compute_*_key classifies and yields the path; every byte string "
                 f"of length <= 2 through bytes<->nibbles and bytes<->bits; every bit string of length <= {bits_max} through the key-path packing; "
-                "every kv node (path <= 10 bits), branch and leaf node parse back; the malformed family (empty, None, type bytes 3..255, branch "
+                "every kv node (path <= 10 bits), branch and leaf node parse back; boundary probes at lengths 31..1000 (six fill patterns each) for nibble paths, "
+                "bit paths, kv nodes and byte strings; the malformed family (empty, None, type bytes 3..255, branch "
                 "lengths != 65, kv lengths <= 33, bare leaf byte) => InvalidNode; non-trivial = every input is distinct by construction")
     rep.assumptions = ["the 'randomly beyond the bound' clause of the property is not claimed (sampling is another family)",
                        "spec functions in mcx/ref (own HP / packing), validated by literal vectors in the self-test"]
@@ -222,6 +283,12 @@ def run(tier, seed):
     for v in viols:
         rep.add_violation(v, dict(system="C16"))
     rep.add_part(name="byte/nibble/bit conversions, key-path packing, binary nodes", evaluations=evals, violations=stats.get("violations", 0), stats=stats)
+    evals2, viols, stats = long_inputs()
+    for v in viols:
+        rep.add_violation(v, dict(system="C16"))
+    rep.add_part(name=f"boundary probes: lengths {LONG} x 6 fill patterns (nibble paths, bit paths, kv nodes, byte strings)", evaluations=evals2,
+                 violations=stats.get("violations", 0))
+    evals += evals2
     rep.evaluations = total + evals
     rep.nontrivial = total + evals
     rep.samples = [dict(nibbles=[1, 2, 3], terminator=True, encoded="0x" + mpt.hp((1, 2, 3), True).hex()),
